@@ -185,9 +185,49 @@ def run(rep):
         if bad:
             rep.finding('C02/K-islands/%s' % cls, w, detail, kernel='K-islands')
             break
+    bad, cls, detail = many_groups_oracle()
+    rep.validated_runs(1)
+    if bad:
+        rep.finding('C02/K-islands/%s' % cls, dict(kind='many-groups'), detail, kernel='K-islands')
+
+
+def many_groups_oracle(N=1500, seed=3):
+    """a large noise image with far more flood-level groups than 16 bits can number: the seeded islands returned are exactly the
+    8-connected flood groups that hold a pixel above the seed clip (counted independently with 32-bit labels)"""
+    from scipy import ndimage
+    sf = loader.real('source_finder')
+    rng = real_np.random.default_rng(seed)
+    im = rng.normal(0, 1, (N, N)).astype(real_np.float32)
+    for k in range(40):
+        r, c_ = int(rng.integers(5, N - 5)), int(rng.integers(5, N - 5))
+        im[r - 1:r + 2, c_ - 1:c_ + 2] += 8.0
+    bkg = real_np.zeros((N, N), dtype=real_np.float32)
+    rms = real_np.ones((N, N), dtype=real_np.float32)
+    snr = real_np.abs(im.astype(float))
+    lab, n = ndimage.label(snr >= 2.0, structure=real_np.ones((3, 3)), output=real_np.int32)
+    seeded = set(int(x) for x in real_np.unique(lab[snr > 4.0])) - {0}
+    try:
+        isl = list(sf.find_islands(im, bkg, rms, seed_clip=4.0, flood_clip=2.0))
+    except Exception as e:
+        return True, 'raises-%s' % type(e).__name__, repr(e)[:200]
+    got = set()
+    for i in isl:
+        (x0, x1), (y0, y1) = i.bounding_box
+        m = i.mask
+        sub = lab[x0:x1, y0:y1][~real_np.asarray(m, dtype=bool)]
+        ids = set(int(v) for v in real_np.unique(sub)) - {0}
+        if len(ids) != 1:
+            return True, 'island-not-one-group', 'an island covers flood groups %s' % sorted(ids)[:5]
+        got |= ids
+    if got != seeded:
+        return True, 'many-groups', '%d flood groups (%d of them seeded) in a %dx%d image: %d seeded islands returned, %d missing (first missing label %s)' % (n, len(seeded), N, N, len(got), len(seeded - got), min(seeded - got) if seeded - got else None)
+    return False, None, None
 
 
 def replay(w):
+    if w['witness'].get('kind') == 'many-groups':
+        bad, cls, detail = many_groups_oracle()
+        return bad, '%s: %s' % (cls, detail)
     bad, cls, detail = replay_case(w['witness'])
     return bad, '%s: %s' % (cls, detail)
 
